@@ -244,8 +244,8 @@ Qed.
    Proofs/RegexTrail.v m_trail with "equal answers" weakened to "same captures"; ev_eol_tail: `\s*$` succeeds exactly on white
    subjects), for any run of `\s` characters.  PARTIAL with respect to "classify n (line ++ ws) = classify n line": the three
    other statement regexes are not covered — `(?P<expr>.+)$` (assignment) and `\S.*` (return expr) absorb the run, the name
-   group of jump is followed directly by `\s*$` — and assignment is tried FIRST by classify, so no classify theorem follows
-   yet (see C10_ws_tokens_partial). ---- *)
+   group of jump is followed directly by `\s*$`; those three are done in round 6 (C10_ws_assignment_regex_trailing,
+   C10_ws_return_regex_trailing, C10_ws_jump_regex_trailing) and the classify theorem is C10_ws_trailing below. ---- *)
 Theorem C10_ws_statement_regex_trailing_partial : forall R line ws, stmt_tail_re R -> white ws ->
   match rxm R line with
   | MNo => rxm R (line ++ ws) = MNo
@@ -444,23 +444,36 @@ Qed.
 
 (* C10_ws_tokens_partial — the FULL clause "breaking a line at any point where a space is allowed / changing indentation or
    trailing whitespace yields the same statement" needs whitespace-insensitivity of EVERY statement regex and of the
-   expression lexer at EVERY gap.  PROVED: the keyword-only statements and the bare `return` with any indentation and trailing whitespace
-   (C10_ws_keyword_lines, C10_ws_else_gap, C10_ws_return_bare); a leading whitespace run in front of an expression, no fuel premise
-   (C10_ws_expression_leading_partial / _err / _ok, C10_expression_fuel_suffices); indentation of EVERY statement kind
-   (C10_ws_indentation; C10_ws_indentation_partial is the earlier version without function-begin / jump / jumpif / return);
-   round 5: white space BETWEEN the tokens of an expression — all token kinds, string / bracket atoms opaque, result EOk only
-   (C10_ws_expression_tokens_partial, _iff_partial, C10_ws_spaced_symmetric); TRAILING white space of an expression, every
-   text, equality of results (C10_ws_expression_trailing, C10_ws_token_regex_trailing); trailing white space for fifteen
-   statement regexes at the engine level (C10_ws_statement_regex_trailing_partial).
-   NOT proved (oracle only): trailing whitespace and inner gaps of the STATEMENT lines that carry an expression or a name
-   (assignment, function, if/elif/while/for, label, jump/jumpif, return expr, include).  What is missing there is the
-   statement-regex layer only (the expression inside is covered by the two round-5 theorems): (1) the fifteen regexes that end
-   with `X \s*$` after a literal X are done at the ENGINE level (C10_ws_statement_regex_trailing_partial: same captures), but
-   classify tries the assignment regex first and the jump regex (name group directly before `\s*$`) is not of that shape; (2) `(?P<expr>.+)$` (assignment) and `\S.*` (return) absorb the
-   run, so the engine does NOT run in lockstep there (more star iterations on the longer subject), and `x =` / `x =  ` shows
-   that "assignment does not match" is not even preserved for a rejected line — the classify theorem has to go through the
-   kinds; (3) a run containing LF must be excluded (`.` does not read it).  These stay checked metamorphically by the direct
-   oracle (harness/c10_oracle.py) at every inter-token gap of every statement kind.
+   expression lexer at EVERY gap.  PROVED:
+   * indentation of EVERY statement kind (C10_ws_indentation);
+   * round 6: TRAILING white space of EVERY statement kind at the level of classify (C10_ws_trailing; with indentation:
+     C10_ws_padding) — LF-free line and run; only an elif whose condition does not parse is excluded (its kind quotes the
+     line); behind it the engine-level theorems C10_ws_statement_regex_trailing_partial (fifteen regexes `X \s*$`),
+     C10_ws_assignment_regex_trailing, C10_ws_return_regex_trailing, C10_ws_jump_regex_trailing, and
+     C10_ws_classified_not_eq_end / C10_expression_never_ends_eq (`x =` versus `x =  `);
+   * the expression inside a statement: a leading run (C10_ws_expression_leading_partial / _err / _ok, no fuel premise),
+     runs BETWEEN the tokens — all token kinds, string / bracket atoms opaque, result EOk only
+     (C10_ws_expression_tokens_partial, _iff_partial, C10_ws_spaced_symmetric), a TRAILING run, every text, equality of results
+     (C10_ws_expression_trailing, C10_ws_token_regex_trailing);
+   * round 6: the INNER gaps of the statement regexes (`\s*` / `\s+` between keyword, names, `=`, parentheses, colon) for
+     assignment, if, elif, while, return <expr>, jump, jumpif: C10_ws_statement_gaps_partial (relation stmt_spaced2) and the
+     per-kind C10_ws_*_pieces; from before: the keyword-only statements and the bare `return` with any indentation and
+     trailing whitespace (C10_ws_keyword_lines, C10_ws_return_bare) and `else :` (C10_ws_else_gap).
+   NOT proved (oracle only):
+   * the INNER gaps of function begin (`async`, `function`, name, `(`, the argument list with its commas, `...`, `)`, `:`),
+     for (`for v , i in e :`), label (`name :`), include (`include '...'`, `include <...>`): their indentation and trailing
+     run ARE covered (C10_ws_padding), the gaps between their pieces are not.  What is missing is one direct reading per
+     regex (as in Proofs/C10stmtGaps.v); label additionally needs "the name is not a keyword" (`else :` is KElse, `if  :` is an
+     if with the expression ` `), for has the optional index group, function begin a star over a group, include a
+     backtracking star over an alternation;
+   * C10_ws_statement_gaps_partial has the premise "the expression text parses" (it yields that BOTH layouts classify as
+     the same kind) rather than "the first layout classifies successfully"; rejected lines are not related (their error
+     record quotes the line, so it differs by construction; that the message and the column relative to the first token
+     agree is not stated);
+   * the expression-token theorem relates only EOk results; LF inside a run is excluded in C10_ws_trailing (`.` does not
+     read LF; parse_script never produces such a line: C10_lines_have_no_lf).
+   These stay checked metamorphically by the direct oracle (harness/c10_oracle.py) at every inter-token gap of every
+   statement kind.
    C10_stateless: parse_script / parse_expression of the model are Gallina functions, so determinism and absence
    of state between calls are definitional; on the implementation they are tested by interleaved repeated calls. *)
 
